@@ -974,7 +974,14 @@ func (b *beacon) ShiftExpired(howMany int) []treasure.Treasure {
 	counter := 0
 	now := time.Now().UTC().UnixNano()
 	for _, treasureObj := range b.treasuresByOrder {
-		lockerID := treasureObj.StartTreasureGuard(true)
+		// Never wait for a treasure guard while holding b.mu: the guard's holder
+		// (a save or a delete) needs b.mu to update this beacon, so waiting here
+		// deadlocks. A treasure that is busy right now is left for the next call.
+		lockerID := treasureObj.StartTreasureGuard(false)
+		if lockerID == 0 {
+			remainingTreasures = append(remainingTreasures, treasureObj)
+			continue
+		}
 		// ExpirationTime == 0 means "never expires" (matches IsExpired);
 		// guard against returning rows whose TTL was cleared after they
 		// were originally indexed.
@@ -1044,7 +1051,12 @@ func (b *beacon) ShiftMatching(howMany int, predicate func(treasure.Treasure) bo
 	counter := 0
 	matchesBeyondBudget := 0
 	for _, treasureObj := range b.treasuresByOrder {
-		lockerID := treasureObj.StartTreasureGuard(true)
+		// See ShiftExpired: no waiting for a guard under b.mu.
+		lockerID := treasureObj.StartTreasureGuard(false)
+		if lockerID == 0 {
+			remainingTreasures = append(remainingTreasures, treasureObj)
+			continue
+		}
 		matched := predicate(treasureObj)
 		if matched && counter < effectiveHowMany {
 			clonedTreasure := treasureObj.Clone(lockerID)
@@ -1286,20 +1298,24 @@ func (b *beacon) CloneOrderedTreasures(thenReset bool) []treasure.Treasure {
 
 	atomic.StoreInt32(&b.initialized, 1)
 
+	// Take the list under b.mu, clone outside of it: waiting for a treasure
+	// guard while holding b.mu deadlocks with a save or delete that holds the
+	// guard and needs b.mu to update this beacon.
 	b.mu.Lock()
-	defer b.mu.Unlock()
-
-	// clone the slice because we don't want to expose the internal slice
-	clone := make([]treasure.Treasure, len(b.treasuresByOrder))
-	for index, treasureObj := range b.treasuresByOrder {
-		lockerID := treasureObj.StartTreasureGuard(true)
-		clone[index] = treasureObj.Clone(lockerID)
-		treasureObj.ReleaseTreasureGuard(lockerID)
-	}
-
+	snapshot := make([]treasure.Treasure, len(b.treasuresByOrder))
+	copy(snapshot, b.treasuresByOrder)
 	if thenReset {
 		b.treasuresByOrder = nil
 		b.treasuresByKeys = make(map[string]treasure.Treasure)
+	}
+	b.mu.Unlock()
+
+	// clone the slice because we don't want to expose the internal slice
+	clone := make([]treasure.Treasure, len(snapshot))
+	for index, treasureObj := range snapshot {
+		lockerID := treasureObj.StartTreasureGuard(true)
+		clone[index] = treasureObj.Clone(lockerID)
+		treasureObj.ReleaseTreasureGuard(lockerID)
 	}
 
 	return clone
@@ -1311,19 +1327,23 @@ func (b *beacon) CloneUnorderedTreasures(thenReset bool) map[string]treasure.Tre
 
 	atomic.StoreInt32(&b.initialized, 1)
 
+	// See CloneOrderedTreasures: no waiting for a guard under b.mu.
 	b.mu.Lock()
-	defer b.mu.Unlock()
-
-	treasuresClone := make(map[string]treasure.Treasure)
+	snapshot := make(map[string]treasure.Treasure, len(b.treasuresByKeys))
 	for key, value := range b.treasuresByKeys {
-		guardID := value.StartTreasureGuard(true)
-		treasuresClone[key] = value.Clone(guardID)
-		value.ReleaseTreasureGuard(guardID)
+		snapshot[key] = value
 	}
-
 	if thenReset {
 		b.treasuresByOrder = nil
 		b.treasuresByKeys = make(map[string]treasure.Treasure)
+	}
+	b.mu.Unlock()
+
+	treasuresClone := make(map[string]treasure.Treasure, len(snapshot))
+	for key, value := range snapshot {
+		guardID := value.StartTreasureGuard(true)
+		treasuresClone[key] = value.Clone(guardID)
+		value.ReleaseTreasureGuard(guardID)
 	}
 
 	return treasuresClone
